@@ -21,7 +21,7 @@ func codecPatterns() []string {
 	for _, p := range codecPkgs {
 		out = append(out, "./"+p)
 	}
-	return append(out, "./pkg/protocol/xprotocol", "./pkg/stream/xprotocol", "./pkg/protocol", "./pkg/stream/http", "./pkg/module/http2", "./pkg/proxy")
+	return append(out, "./pkg/protocol/xprotocol", "./pkg/stream/xprotocol", "./pkg/protocol", "./pkg/stream/http", "./pkg/module/http2", "./pkg/proxy", "./pkg/network")
 }
 
 func init() {
@@ -231,6 +231,23 @@ func (br *boundsRun) translate(callee *ssa.Function, goal Lin, cs ssa.CallInstru
 				return Lin{}, false
 			}
 			sub = ba.atom(fmt.Sprintf("wire(%s,%d,%d)", root, int(o2.C)+off, w), true)
+		case strings.HasPrefix(a, "len(fld:P"):
+			// length of a field of a parameter object that the callee never writes: at the call site it is the length of
+			// the value most recently loaded from that field, provided nothing can have changed it since
+			var fname string
+			rest := strings.TrimSuffix(strings.TrimPrefix(a, "len(fld:P"), ")")
+			if i := strings.Index(rest, "."); i > 0 {
+				fmt.Sscanf(rest[:i], "%d", &pi)
+				fname = rest[i+1:]
+			}
+			if pi < 0 || pi >= len(args) || fname == "" {
+				return Lin{}, false
+			}
+			ld := currentFieldLoad(caller, args[pi], fname, cs)
+			if ld == nil {
+				return Lin{}, false
+			}
+			sub = ba.lenOf(ld)
 		case strings.HasPrefix(a, "len(P"):
 			fmt.Sscanf(a, "len(P%d)", &pi)
 			if pi < 0 || pi >= len(args) {
@@ -316,6 +333,7 @@ func runC07(c *Ctx) {
 	c.Rule("C07.B3", "matchers answer MatchAgain exactly below their (constant) width and never decide on fewer bytes than they read", 10)
 	c.Rule("C07.B3h", "the HTTP/1 detector gives a negative verdict only after it has seen as many bytes as it may read", 2)
 	c.Rule("C07.B3s", "protocol auto-detection: success only on a matcher's nil answer, need-more-data sticky, FAILED only when nobody asked for more, proxy waits without consuming", 4)
+	c.Rule("C07.B2r", "the network layer recycles the read buffer only when it is empty (unconsumed bytes are never discarded)", 2)
 	c.Rule("C07.B2h", "HTTP/2 frame reader: re-read loops advance, drain once and last by the reported size, HPACK fed only after the block arrived", 5)
 	c.Rule("C07.B2d", "Dispatch: loop exits only on empty/(nil,nil)/error; a frame goes to handleFrame exactly once", 5)
 	c.Assumptions = append(c.Assumptions,
@@ -341,6 +359,7 @@ func runC07(c *Ctx) {
 	runC07HTTPMatcher(c)
 	runC07H2(c, "C07.B1", "C07.B2h")
 	runC07Detection(c)
+	runC07ReadBuffer(c)
 }
 
 // ---------------------------------------------------------------------------------------------
@@ -914,4 +933,65 @@ func runC07HTTPMatcher(c *Ctx) {
 	if nfail == 0 {
 		c.Unresolved("C07.B3h", "FAILED return in ProtocolMatch")
 	}
+}
+
+// currentFieldLoad: a load of base.field that dominates `at` with no store to that field and no call in between on any
+// path (so it still is the field's value when `at` executes).
+func currentFieldLoad(fn *ssa.Function, base ssa.Value, field string, at ssa.Instruction) ssa.Value {
+	var best *ssa.UnOp
+	forEachInstr(fn, false, func(_ *ssa.Function, in ssa.Instruction) {
+		ld, ok := in.(*ssa.UnOp)
+		if !ok || ld.Op != token.MUL {
+			return
+		}
+		fa, ok := ld.X.(*ssa.FieldAddr)
+		if !ok || fa.X != base || derefStruct(fa.X.Type()).Field(fa.Field).Name() != field {
+			return
+		}
+		if !instrDominates(ld, at) {
+			return
+		}
+		dirty := existsPath(fn, ld, func(x ssa.Instruction) bool { return x == at }, func(x ssa.Instruction) bool { return false }) == nil
+		if dirty {
+			return
+		}
+		// no store to the field / no call between ld and at
+		bad := false
+		forEachInstr(fn, false, func(_ *ssa.Function, y ssa.Instruction) {
+			if y == at || y == ssa.Instruction(ld) {
+				return
+			}
+			isWriter := false
+			if st, ok := y.(*ssa.Store); ok {
+				if _, f, _, okf := fieldAddrInfo(st.Addr); okf && f == field {
+					isWriter = true
+				}
+			}
+			if _, ok := y.(ssa.CallInstruction); ok {
+				if c, isCall := y.(*ssa.Call); !isCall || !isPureBuiltin(c) {
+					isWriter = true
+				}
+			}
+			if !isWriter {
+				return
+			}
+			// y between ld and at on some path?
+			if existsPath(fn, ld, func(x ssa.Instruction) bool { return x == y }, func(x ssa.Instruction) bool { return x == at }) != nil &&
+				existsPath(fn, y, func(x ssa.Instruction) bool { return x == at }, func(x ssa.Instruction) bool { return x == ssa.Instruction(ld) }) != nil {
+				bad = true
+			}
+		})
+		if !bad {
+			best = ld
+		}
+	})
+	if best == nil {
+		return nil
+	}
+	return best
+}
+
+func isPureBuiltin(c *ssa.Call) bool {
+	b, ok := c.Call.Value.(*ssa.Builtin)
+	return ok && (b.Name() == "len" || b.Name() == "cap")
 }
